@@ -7,6 +7,7 @@ mod minimize;
 mod model;
 mod oracle;
 mod oracle2;
+mod oracle3;
 mod prog;
 mod sim;
 mod tasks;
